@@ -1015,7 +1015,40 @@ func (m *ModRef) extern(fn *ssa.Function, c ssa.CallInstruction, callee *ssa.Fun
 	case name == "bytes.TrimRight" || name == "bytes.TrimLeft" || name == "bytes.TrimSpace" || name == "bytes.Trim":
 		m.setResult(c, 0, nres, args[0])
 	default:
-		// read-only by assumption; result may alias any argument or be fresh
+		// A standard-library function that fills a destination it is handed: a parameter named dst (encoding/hex,
+		// encoding/base64, unicode/utf16, ...), the in-place sorters and reversers, and the byte-order Put/Append family.
+		wrote := false
+		if sig := callee.Signature; sig != nil {
+			off := 0
+			if sig.Recv() != nil {
+				off = 1
+			}
+			for i := 0; i < sig.Params().Len(); i++ {
+				prm := sig.Params().At(i)
+				isDst := prm.Name() == "dst"
+				switch name {
+				case "sort.Float64s", "sort.Ints", "sort.Strings", "sort.Slice", "sort.SliceStable",
+					"slices.Sort", "slices.SortFunc", "slices.SortStableFunc", "slices.Reverse", "unicode/utf8.EncodeRune", "math/rand.Shuffle":
+					isDst = isDst || i == 0
+				}
+				if strings.HasPrefix(callee.Name(), "PutUint") || strings.HasPrefix(callee.Name(), "PutVarint") || strings.HasPrefix(callee.Name(), "PutUvarint") {
+					isDst = isDst || i == 0
+				}
+				if !isDst || i+off >= len(args) {
+					continue
+				}
+				switch prm.Type().Underlying().(type) {
+				case *types.Slice:
+					m.recordWrite(c, elems(args[i+off]), name)
+					wrote = true
+				case *types.Pointer:
+					m.recordWrite(c, args[i+off], name)
+					wrote = true
+				}
+			}
+		}
+		_ = wrote
+		// otherwise read-only by assumption; result may alias any argument or be fresh
 		m.Unmodeled[name]++
 		m.defaultResult(c, args, nres, callee.Name())
 	}
